@@ -210,7 +210,14 @@ func cmdCheck(record bool, args []string) int {
 			continue
 		}
 		translErrs = append(translErrs, res.Warn...)
-		funcsUnder = append(funcsUnder, shortFuncName(f))
+		fu := shortFuncName(f)
+		switch {
+		case cons[i].LockOnly:
+			fu += " [lock discipline only; callees without contract abstracted]"
+		case cons[i].Abstract:
+			fu += " [declared clauses only; unmodelled callees / instructions abstracted]"
+		}
+		funcsUnder = append(funcsUnder, fu)
 		for _, o := range res.Obls {
 			file := filepath.Join(workDir, sanitize(o.Name)+".smt2")
 			var b strings.Builder
